@@ -2,163 +2,638 @@
 (***************************************************************************)
 (* Reference semantics of the sequential core of Go used by C01 (compiled  *)
 (* programs behave like the reference), C02 (suspending a goroutine is     *)
-(* invisible) and C16 (minification preserves behaviour).                  *)
+(* invisible) and C16 (minification preserves behaviour).  "MiniGo v2".    *)
 (*                                                                         *)
-(* A program is a JSON AST (tuples of strings, numbers, tuples):           *)
-(*   program   <<funcs>>      funcs[i] = <<name, params, locals, body>>; funcs[1] is the entry *)
-(*   int expr  <<"lit", n>> <<"var", x>> <<"add", a, b>> <<"sub", a, b>> <<"mul", a, b>>      *)
-(*             <<"tr", k, e>>        trace point: prints "t k v", value of e                  *)
-(*             <<"call", f, args>>   args evaluated left to right                             *)
-(*             <<"callv", c>>        call of the closure stored in local c                    *)
-(*   bool expr <<"lt", a, b>> <<"eq", a, b>> <<"in">> (next input bit) <<"not", c>>           *)
-(*             <<"and", c, d>> <<"or", c, d>> (short circuit) <<"trb", k, c>> (prints "b k 0|1") *)
-(*   stmt      <<"emit", k, e>>  <<"assign", x, e>>  <<"swap", x, y>>  <<"inc", x>>  <<"addto", x, e>> *)
-(*             <<"if", c, then, else>>                                                        *)
-(*             <<"for", label, init, c, post, body>>   init/post: statement lists             *)
-(*             <<"switch", hasTag, tag, clauses, label>> clauses[i] = <<isDefault, exprs, body, fallthrough>> *)
-(*             <<"break", label>> <<"continue", label>>  (label "" = innermost)               *)
-(*             <<"return", e>>  <<"expr", e>>                                                 *)
-(*             <<"closure", c, body>>   c := func() int { body }  (captures locals by reference) *)
-(* Variables are declared once per function (unique names), so an          *)
-(* environment is a flat function from names to ints; a closure body runs  *)
-(* against the environment of the function that created it.  Loop          *)
-(* variables are shared by all iterations (language version 1.20).          *)
+(* A program is a JSON record [funcs, globals]:                            *)
+(*   funcs[i]   = [name, params, locals, body, pt, lt, rt, named, vari]    *)
+(*                pt/lt/rt: type tags of parameters / locals / results;    *)
+(*                named: names of the named results (also listed in        *)
+(*                locals) or <<>>; vari: last parameter is variadic;       *)
+(*                funcs[1] is the entry (no parameters, one int result);   *)
+(*                methods are functions whose first parameter is the       *)
+(*                receiver; function literals are functions referred to by *)
+(*                <<"funclit", name>>                                       *)
+(*   globals[i] = <<name, type>>   package-level variables                  *)
+(* Type tags: "int" "bool" "sl" ([]int) "arr" ([3]int) "map" (map[int]int)  *)
+(*   "str" (string, ASCII) "T" (struct{a, b int}) "fn" "fn1" (func() int,   *)
+(*   func(int) int) and "p..." (pointer to ...).                            *)
+(*                                                                         *)
+(* Expressions (tuples; the fragment of version 1 is unchanged):           *)
+(*   int   <<"lit", n>> <<"var", x>> <<"add"|"sub"|"mul", a, b>>             *)
+(*         <<"tr", k, e>>         trace point: prints "t k v", value of e    *)
+(*         <<"call", f, args>>    <<"callsp", f, args>> (last arg is s...)   *)
+(*         <<"callv", c>>         call of the closure stored in variable c   *)
+(*         <<"callf", fe, args>>  call of a function value                   *)
+(*         <<"mcall", recv, m, args>>  method call; recv is the receiver     *)
+(*                                value (struct for value receivers, pointer  *)
+(*                                for pointer receivers)                      *)
+(*         <<"idx", kind, base, i>>  kind: sl arr pa map str                 *)
+(*         <<"len"|"cap", kind, e>>  <<"fld", e, f>> <<"pfld", p, f>> <<"deref", p>> *)
+(*         <<"copy", dst, src>>                                             *)
+(*   bool  <<"lt", a, b>> <<"eq", a, b>> <<"in">> (next input bit) <<"not", c>> *)
+(*         <<"and", c, d>> <<"or", c, d>> (short circuit) <<"trb", k, c>> (prints "b k 0|1") *)
+(*         <<"bvar", x>> <<"streq", a, b>> <<"peq", p, q>>                   *)
+(*   slice <<"mk", n, c|<<>> >> <<"sllit", es>> <<"slice", kind, base, lo, hi, max>> *)
+(*         (kind sl | arrv: base is an array LVALUE | pa | str; absent bound = <<>>) *)
+(*         <<"append", s, es>> <<"appendsl", s, t>> <<"nilsl">>              *)
+(*   other <<"arrlit", es>> <<"tlit", a, b>> <<"strlit", bytes>> <<"concat", a, b>> *)
+(*         <<"mkmap">> <<"maplit", kvs>> <<"nil">> <<"addr", <<"var", x>> >>  *)
+(*         <<"newT", a, b>> <<"funclit", name>> <<"fnref", name>> <<"mval", recv, m>> *)
+(* L-values: <<"var", x>> <<"idx", kind, base, i>> (kind arr: base is an    *)
+(*         l-value) <<"fld", lv, f>> <<"pfld", p, f>> <<"deref", p>> <<"blank">> *)
+(* Statements:                                                             *)
+(*   <<"emit", k, e>>  <<"assign", x, e>>  <<"swap", x, y>>  <<"inc", x>>  <<"addto", x, e>> *)
+(*   <<"if", c, then, else>>                                                *)
+(*   <<"for", label, init, c, post, body>>   init/post: statement lists      *)
+(*   <<"switch", hasTag, tag, clauses, label>> clauses[i] = <<isDefault, exprs, body, fallthrough>> *)
+(*   <<"break", label>> <<"continue", label>>  (label "" = innermost)        *)
+(*   <<"return", e>>  <<"expr", e>>                                          *)
+(*   <<"closure", c, body>>   c := func() int { body }  (captures by reference) *)
+(*   <<"set", lv, e>>  <<"massign", lvs, es>>  <<"assignN", lvs, call>>       *)
+(*   <<"opset", op, lv, e>>  <<"incdec", lv, d>>  <<"bassign", x, c>>         *)
+(*   <<"commaok", lv, okvar, m, k>>  <<"delete", m, k>>                       *)
+(*   <<"range", label, kind, key, val, define, x, body>>  kind: sl arr pa str map *)
+(*   <<"defer", call>>  <<"deferemit", k, e>>  <<"panic", e>>                 *)
+(*   <<"goto", L>>  <<"label", L>>  <<"returnN", es>>  <<"ret0">>             *)
+(*   <<"dump", k, kind, e>>   prints the contents of a composite value        *)
+(*                                                                         *)
+(* Store.  Every variable is a cell of st.mem; an environment maps names   *)
+(* to cells (names are unique per program, so environments are flat).      *)
+(* Arrays and structs are tuples stored IN a cell (assignment copies);     *)
+(* a slice is [a, o, n, c]: backing cell, offset, length, capacity; the    *)
+(* backing cell holds a tuple (an array variable can be the backing cell   *)
+(* of a slice); a map is the number of a cell holding a function; a        *)
+(* pointer is a cell number (0 = nil); a function value is [f, env, b,     *)
+(* body]: function number, captured environment, bound receiver.           *)
+(*                                                                         *)
+(* Evaluation order is the Go specification's: operands left to right;     *)
+(* an assignment first evaluates the index and pointer operands on the     *)
+(* left and all right-hand sides, then assigns left to right (run-time      *)
+(* checks of the left-hand sides happen at the assignment); the range       *)
+(* expression is evaluated once, the length of a slice is fixed at loop      *)
+(* entry, the iteration variables are per loop (language version 1.20);      *)
+(* arguments of a deferred call are evaluated at the defer statement;        *)
+(* a method value binds its receiver when it is evaluated.                   *)
+(* Programs whose result depends on what Go leaves open are rejected        *)
+(* (ok = FALSE): the capacity chosen by append when it reallocates          *)
+(* (three growth policies must agree), the iteration order of maps          *)
+(* (ascending and descending must agree), insertion into a map that is       *)
+(* being ranged over, arithmetic beyond +-Limit, fuel.                       *)
 (*                                                                         *)
 (* Yield points (C02) are the trace points tr/trb: suspending there must   *)
 (* be a stuttering step, so the semantics does not mention them at all.    *)
 (*                                                                         *)
-(* Eval functions thread a state st = [env, clo, obs, ip, fuel]:           *)
-(*   env  locals of the current activation   clo  closure bodies by name   *)
-(*   obs  printed tuples   ip  input position   fuel  remaining loop iterations *)
+(* Eval functions thread a state st:                                       *)
+(*   env  names -> cells of the current activation   mem  the cells        *)
+(*   obs  printed tuples   ip  input position   fuel  remaining iterations *)
+(*   dfr  deferred calls of the current activation   pan  panic class or <<>> *)
+(*   depth call depth   grew/mapr/nd  a policy-dependent step happened       *)
+(*   rng  maps being ranged over   wf  slice well-formedness held so far     *)
 (***************************************************************************)
-EXTENDS Integers, Sequences, TLC
+EXTENDS Integers, Sequences, FiniteSets, TLC
 
-RECURSIVE EvalI(_, _, _, _), EvalB(_, _, _, _), EvalArgs(_, _, _, _, _, _),
-          Exec(_, _, _, _), ExecList(_, _, _, _, _), Loop(_, _, _, _),
-          Clauses(_, _, _, _, _, _, _), MatchAny(_, _, _, _, _, _, _), CallFn(_, _, _, _, _)
+RECURSIVE Eval(_, _, _), EvalList(_, _, _, _, _), EvalLV(_, _, _), EvalLVs(_, _, _, _, _),
+          Exec(_, _, _), ExecList(_, _, _, _), Loop(_, _, _), RangeIter(_, _, _, _, _, _, _),
+          Clauses(_, _, _, _, _, _), MatchAny(_, _, _, _, _, _), RunClauses(_, _, _, _),
+          CallFn(_, _, _, _, _), CallVal(_, _, _, _), RunDefers(_, _, _), StoreAll(_, _, _, _)
 
 \* results
 IR(v, st) == [v |-> v, st |-> st]
-\* statement outcome: sig \in {"norm", "break", "continue", "return", "fall"}
+\* statement outcome: sig \in {"norm", "break", "continue", "return", "return0", "goto", "panic"}
 SR(st, sig, lbl, rv) == [st |-> st, sig |-> sig, lbl |-> lbl, rv |-> rv]
+
+Bad(r) == r.st.pan # <<>>
+Panic(st, cls) == [st EXCEPT !.pan = cls]
+PanicIR(st, cls) == IR(0, Panic(st, cls))
+PanicSR(st) == SR(st, "panic", "", 0)
+\* out of fuel / out of range: the scenario is discarded (fuel = -1), unwinding like a panic
+OutOfFuel(st) == [st EXCEPT !.fuel = -1, !.pan = <<"fuel">>]
 
 \* Values are kept far inside the 32-bit range (int is 32 bits wide under GopherJS and
 \* 64 bits under the reference toolchain; wrap-around is the business of Bits.tla):
 \* a scenario whose arithmetic leaves +-Limit is discarded (fuel = -1).
 Limit == 1000000
-Chk(v, st) == IF v > Limit \/ v < -Limit THEN IR(0, [st EXCEPT !.fuel = -1]) ELSE IR(v, st)
+MaxDepth == 24
+Chk(v, st) == IF v > Limit \/ v < -Limit THEN IR(0, OutOfFuel(st)) ELSE IR(v, st)
 
-FuncIndex(P, name) == CHOOSE i \in DOMAIN P : P[i][1] = name
+NilSlice == [a |-> 0, o |-> 0, n |-> 0, c |-> 0]
+NilFn == [f |-> 0, env |-> <<>>, b |-> <<>>, body |-> <<>>]
+Zero(t) == CASE t = "int" -> 0 [] t = "bool" -> 0 [] t = "sl" -> NilSlice [] t = "arr" -> <<0, 0, 0>>
+             [] t = "T" -> <<0, 0>> [] t = "str" -> <<>> [] t = "map" -> 0
+             [] t \in {"fn", "fn1", "fnsl", "fnarr", "fnparr", "fnstr", "fnmap", "fnpT", "fnpint"} -> NilFn [] OTHER -> 0
 
-EvalI(P, I, e, st) ==
-  CASE e[1] = "lit" -> IR(e[2], st)
-    [] e[1] = "var" -> IR(st.env[e[2]], st)
-    [] e[1] \in {"add", "sub", "mul"} ->
-         LET a == EvalI(P, I, e[2], st)
-             b == EvalI(P, I, e[3], a.st)
-         IN Chk(CASE e[1] = "add" -> a.v + b.v [] e[1] = "sub" -> a.v - b.v [] e[1] = "mul" -> a.v * b.v, b.st)
-    [] e[1] = "tr" ->
-         LET a == EvalI(P, I, e[3], st)
-         IN IR(a.v, [a.st EXCEPT !.obs = Append(@, <<"t", e[2], a.v>>)])
-    [] e[1] = "call" ->
-         LET as == EvalArgs(P, I, e[3], 1, <<>>, st)
-         IN CallFn(P, I, FuncIndex(P, e[2]), as.v, as.st)
-    [] e[1] = "callv" ->
-         \* the closure body runs in the creating activation's environment
-         LET r == ExecList(P, I, st.clo[e[2]], 1, st)
-         IN IR(IF r.sig = "return" THEN r.rv ELSE 0, r.st)
+Min2(a, b) == IF a < b THEN a ELSE b
 
-EvalArgs(P, I, args, i, acc, st) ==
-  IF i > Len(args) THEN IR(acc, st)
-  ELSE LET a == EvalI(P, I, args[i], st) IN EvalArgs(P, I, args, i + 1, Append(acc, a.v), a.st)
+RECURSIVE SortKeys(_, _)
+SortKeys(S, ord) ==
+  IF S = {} THEN <<>>
+  ELSE LET m == IF ord = 1 THEN CHOOSE x \in S : \A y \in S : x <= y ELSE CHOOSE x \in S : \A y \in S : x >= y
+       IN <<m>> \o SortKeys(S \ {m}, ord)
 
-\* bools are 0 / 1
-EvalB(P, I, c, st) ==
-  CASE c[1] = "lt" -> LET a == EvalI(P, I, c[2], st) b == EvalI(P, I, c[3], a.st) IN IR(IF a.v < b.v THEN 1 ELSE 0, b.st)
-    [] c[1] = "eq" -> LET a == EvalI(P, I, c[2], st) b == EvalI(P, I, c[3], a.st) IN IR(IF a.v = b.v THEN 1 ELSE 0, b.st)
-    [] c[1] = "in" -> IR(IF st.ip <= Len(I) THEN I[st.ip] ELSE 0, [st EXCEPT !.ip = @ + 1])
-    [] c[1] = "not" -> LET a == EvalB(P, I, c[2], st) IN IR(1 - a.v, a.st)
-    [] c[1] = "and" -> LET a == EvalB(P, I, c[2], st) IN IF a.v = 0 THEN a ELSE EvalB(P, I, c[3], a.st)
-    [] c[1] = "or"  -> LET a == EvalB(P, I, c[2], st) IN IF a.v = 1 THEN a ELSE EvalB(P, I, c[3], a.st)
-    [] c[1] = "trb" -> LET a == EvalB(P, I, c[3], st) IN IR(a.v, [a.st EXCEPT !.obs = Append(@, <<"b", c[2], a.v>>)])
+\* ---- capacity chosen by append when it must reallocate: 1 = the reference toolchain
+\* (double, then round up to an allocation size class of 8-byte elements), 2 = GopherJS's
+\* run time (double), 3 = exact fit.  A program is accepted only if all three agree.
+GcRound(n) == IF n <= 4 THEN n ELSE IF n <= 32 THEN n + (n % 2) ELSE IF n <= 64 THEN n + ((4 - (n % 4)) % 4) ELSE n
+NewCap(pol, oldc, need) ==
+  LET dbl == IF need > 2 * oldc THEN need ELSE 2 * oldc
+  IN CASE pol = 1 -> GcRound(dbl) [] pol = 2 -> dbl [] OTHER -> need
 
-\* call function number f with argument values; the callee gets a fresh environment
-CallFn(P, I, f, argv, st) ==
-  LET fn == P[f]
-      names == fn[2] \o fn[3]
-      env0 == [x \in {names[i] : i \in DOMAIN names} |->
-                 IF \E i \in DOMAIN fn[2] : fn[2][i] = x
-                 THEN argv[CHOOSE i \in DOMAIN fn[2] : fn[2][i] = x] ELSE 0]
-      r == ExecList(P, I, fn[4], 1, [st EXCEPT !.env = env0, !.clo = <<>>])
-  IN IR(IF r.sig = "return" THEN r.rv ELSE 0,
-        [r.st EXCEPT !.env = st.env, !.clo = st.clo])
+\* ---- slices
+SliceWF(s, st) == \/ (s.a = 0 /\ s.o = 0 /\ s.n = 0 /\ s.c = 0)
+                  \/ (s.a \in 1..Len(st.mem) /\ s.o >= 0 /\ s.n >= 0 /\ s.n <= s.c /\ s.o + s.c <= Len(st.mem[s.a]))
+\* every slice value the semantics constructs goes through here
+MkSlice(s, st) == IR(s, IF SliceWF(s, st) THEN st ELSE [st EXCEPT !.wf = FALSE])
 
-ExecList(P, I, ss, i, st) ==
+SliceElems(s, st) == IF s.n = 0 THEN <<>> ELSE SubSeq(st.mem[s.a], s.o + 1, s.o + s.n)
+\* write the values vs into the backing cell of s starting at element index i (0-based, inside the capacity)
+SliceWrite(s, i, vs, st) ==
+  LET arr == st.mem[s.a]
+      lo == s.o + i
+  IN [st EXCEPT !.mem[s.a] = [j \in 1..Len(arr) |-> IF j > lo /\ j <= lo + Len(vs) THEN vs[j - lo] ELSE arr[j]]]
+
+AppendVals(C, s, vs, st) ==
+  IF Len(vs) = 0 THEN IR(s, st)
+  ELSE LET nl == s.n + Len(vs) IN
+       IF nl <= s.c THEN MkSlice([s EXCEPT !.n = nl], SliceWrite(s, s.n, vs, st))
+       ELSE LET nc == NewCap(C.grow, s.c, nl)
+                cell == SliceElems(s, st) \o vs \o [i \in 1..(nc - nl) |-> 0]
+                st1 == [st EXCEPT !.mem = Append(@, cell), !.grew = TRUE]
+            IN MkSlice([a |-> Len(st1.mem), o |-> 0, n |-> nl, c |-> nc], st1)
+
+\* s[lo:hi:max] on a slice value; lo/hi/max already defaulted
+SliceOf(s, lo, hi, max, st) ==
+  IF lo < 0 \/ lo > hi \/ hi > max \/ max > s.c THEN PanicIR(st, <<"bounds">>)
+  ELSE IF s.a = 0 THEN IR(NilSlice, st)
+  ELSE MkSlice([a |-> s.a, o |-> s.o + lo, n |-> hi - lo, c |-> max - lo], st)
+
+\* ---- references to storage: <<"loc", cell, 0>> <<"el", cell, component>> <<"sl", slice, index>>
+\* <<"map", cell, key>> <<"blank", 0, 0>>; the run-time checks happen when the reference is used
+Load(ref, st) ==
+  CASE ref[1] = "loc" -> IF ref[2] = 0 THEN PanicIR(st, <<"nilptr">>) ELSE IR(st.mem[ref[2]], st)
+    [] ref[1] = "el" -> IF ref[2] = 0 THEN PanicIR(st, <<"nilptr">>)
+                        ELSE IF ref[3] < 1 \/ ref[3] > Len(st.mem[ref[2]]) THEN PanicIR(st, <<"index">>)
+                        ELSE IR(st.mem[ref[2]][ref[3]], st)
+    [] ref[1] = "sl" -> IF ref[3] < 0 \/ ref[3] >= ref[2].n THEN PanicIR(st, <<"index">>)
+                        ELSE IR(st.mem[ref[2].a][ref[2].o + ref[3] + 1], st)
+    [] ref[1] = "map" -> IF ref[2] = 0 THEN IR(0, st)
+                         ELSE LET f == st.mem[ref[2]] IN IR(IF ref[3] \in DOMAIN f THEN f[ref[3]] ELSE 0, st)
+    [] OTHER -> IR(0, st)
+
+Store(ref, v, st) ==
+  CASE ref[1] = "loc" -> IF ref[2] = 0 THEN Panic(st, <<"nilptr">>) ELSE [st EXCEPT !.mem[ref[2]] = v]
+    [] ref[1] = "el" -> IF ref[2] = 0 THEN Panic(st, <<"nilptr">>)
+                        ELSE IF ref[3] < 1 \/ ref[3] > Len(st.mem[ref[2]]) THEN Panic(st, <<"index">>)
+                        ELSE [st EXCEPT !.mem[ref[2]][ref[3]] = v]
+    [] ref[1] = "sl" -> IF ref[3] < 0 \/ ref[3] >= ref[2].n THEN Panic(st, <<"index">>)
+                        ELSE [st EXCEPT !.mem[ref[2].a][ref[2].o + ref[3] + 1] = v]
+    [] ref[1] = "map" -> IF ref[2] = 0 THEN Panic(st, <<"nilmap">>)
+                         ELSE LET f == st.mem[ref[2]]
+                                  k == ref[3]
+                                  new == k \notin DOMAIN f
+                              IN [st EXCEPT !.mem[ref[2]] = TLCEval([x \in DOMAIN f \cup {k} |-> IF x = k THEN v ELSE f[x]]),
+                                            !.nd = @ \/ (new /\ ref[2] \in st.rng)]
+    [] OTHER -> st
+
+\* assign vals[i..] to refs[i..] left to right; stops at the first run-time panic
+StoreAll(refs, vals, i, st) ==
+  IF i > Len(refs) THEN st
+  ELSE LET s1 == Store(refs[i], vals[i], st) IN IF s1.pan # <<>> THEN s1 ELSE StoreAll(refs, vals, i + 1, s1)
+
+Arith(op, a, b) == CASE op = "add" -> a + b [] op = "sub" -> a - b [] op = "mul" -> a * b
+
+Opt(C, e, dflt, st) == IF e = <<>> THEN IR(dflt, st) ELSE Eval(C, e, st)
+
+FnVal(C, name) == [f |-> C.fi[name], env |-> C.genv, b |-> <<>>, body |-> <<>>]
+
+\* the extra arguments of a variadic function become a fresh slice (nil when there are none)
+PackArgs(C, f, vals, spread, st) ==
+  LET fn == C.fs[f] IN
+  IF ~fn.vari \/ spread THEN IR(vals, st)
+  ELSE LET np == Len(fn.params)
+           fixed == SubSeq(vals, 1, np - 1)
+           extra == SubSeq(vals, np, Len(vals))
+       IN IF extra = <<>> THEN IR(Append(fixed, NilSlice), st)
+          ELSE LET st1 == [st EXCEPT !.mem = Append(@, extra)]
+               IN IR(Append(fixed, [a |-> Len(st1.mem), o |-> 0, n |-> Len(extra), c |-> Len(extra)]), st1)
+
+\* evaluate es[i..] left to right; v = sequence of values
+EvalList(C, es, i, acc, st) ==
+  IF i > Len(es) THEN IR(acc, st)
+  ELSE LET a == Eval(C, es[i], st) IN IF Bad(a) THEN a ELSE EvalList(C, es, i + 1, Append(acc, a.v), a.st)
+
+EvalLVs(C, lvs, i, acc, st) ==
+  IF i > Len(lvs) THEN IR(acc, st)
+  ELSE LET a == EvalLV(C, lvs[i], st) IN IF Bad(a) THEN a ELSE EvalLVs(C, lvs, i + 1, Append(acc, a.v), a.st)
+
+\* the operands of an l-value, left to right; no run-time check yet
+EvalLV(C, lv, st) ==
+  LET k == lv[1] IN
+  CASE k = "var" -> IR(<<"loc", st.env[lv[2]], 0>>, st)
+    [] k = "blank" -> IR(<<"blank", 0, 0>>, st)
+    [] k = "idx" ->
+         IF lv[2] = "arr"
+         THEN LET b == EvalLV(C, lv[3], st) IN IF Bad(b) THEN b ELSE
+              LET i == Eval(C, lv[4], b.st) IN IF Bad(i) THEN i ELSE IR(<<"el", b.v[2], i.v + 1>>, i.st)
+         ELSE LET r == EvalList(C, <<lv[3], lv[4]>>, 1, <<>>, st) IN IF Bad(r) THEN r ELSE
+              IR(CASE lv[2] = "sl" -> <<"sl", r.v[1], r.v[2]>>
+                   [] lv[2] = "map" -> <<"map", r.v[1], r.v[2]>>
+                   [] lv[2] = "pa" -> <<"el", r.v[1], r.v[2] + 1>>, r.st)
+    [] k = "fld" -> LET b == EvalLV(C, lv[2], st) IN IF Bad(b) THEN b ELSE IR(<<"el", b.v[2], lv[3]>>, b.st)
+    [] k = "pfld" -> LET p == Eval(C, lv[2], st) IN IF Bad(p) THEN p ELSE IR(<<"el", p.v, lv[3]>>, p.st)
+    [] k = "deref" -> LET p == Eval(C, lv[2], st) IN IF Bad(p) THEN p ELSE IR(<<"loc", p.v, 0>>, p.st)
+
+Eval(C, e, st) ==
+  LET k == e[1] IN
+  CASE k = "lit" -> IR(e[2], st)
+    [] k = "var" -> IR(st.mem[st.env[e[2]]], st)
+    [] k \in {"add", "sub", "mul"} ->
+         LET r == EvalList(C, <<e[2], e[3]>>, 1, <<>>, st) IN IF Bad(r) THEN r ELSE Chk(Arith(k, r.v[1], r.v[2]), r.st)
+    [] k = "tr" ->
+         LET a == Eval(C, e[3], st)
+         IN IF Bad(a) THEN a ELSE IR(a.v, [a.st EXCEPT !.obs = Append(@, <<"t", e[2], a.v>>)])
+    [] k \in {"call", "callsp"} ->
+         LET as == EvalList(C, e[3], 1, <<>>, st) IN IF Bad(as) THEN as ELSE
+         LET pk == PackArgs(C, C.fi[e[2]], as.v, k = "callsp", as.st)
+         IN CallFn(C, C.fi[e[2]], pk.v, C.genv, pk.st)
+    [] k = "callv" -> CallVal(C, st.mem[st.env[e[2]]], <<>>, st)
+    [] k = "callf" ->
+         LET f == Eval(C, e[2], st) IN IF Bad(f) THEN f ELSE
+         LET as == EvalList(C, e[3], 1, <<>>, f.st) IN IF Bad(as) THEN as ELSE CallVal(C, f.v, as.v, as.st)
+    [] k = "mcall" ->
+         LET r == Eval(C, e[2], st) IN IF Bad(r) THEN r ELSE
+         LET as == EvalList(C, e[4], 1, <<>>, r.st) IN IF Bad(as) THEN as ELSE
+         CallFn(C, C.fi[e[3]], <<r.v>> \o as.v, C.genv, as.st)
+    \* ---- booleans are 0 / 1
+    [] k = "lt" -> LET r == EvalList(C, <<e[2], e[3]>>, 1, <<>>, st) IN IF Bad(r) THEN r ELSE IR(IF r.v[1] < r.v[2] THEN 1 ELSE 0, r.st)
+    [] k \in {"eq", "peq"} -> LET r == EvalList(C, <<e[2], e[3]>>, 1, <<>>, st) IN IF Bad(r) THEN r ELSE IR(IF r.v[1] = r.v[2] THEN 1 ELSE 0, r.st)
+    [] k = "streq" -> LET r == EvalList(C, <<e[2], e[3]>>, 1, <<>>, st) IN IF Bad(r) THEN r ELSE
+                      IR(IF Len(r.v[1]) = Len(r.v[2]) /\ \A i \in 1..Len(r.v[1]) : r.v[1][i] = r.v[2][i] THEN 1 ELSE 0, r.st)
+    [] k = "in" -> IR(IF st.ip <= Len(C.inp) THEN C.inp[st.ip] ELSE 0, [st EXCEPT !.ip = @ + 1])
+    [] k = "not" -> LET a == Eval(C, e[2], st) IN IF Bad(a) THEN a ELSE IR(1 - a.v, a.st)
+    [] k = "and" -> LET a == Eval(C, e[2], st) IN IF Bad(a) \/ a.v = 0 THEN a ELSE Eval(C, e[3], a.st)
+    [] k = "or"  -> LET a == Eval(C, e[2], st) IN IF Bad(a) \/ a.v = 1 THEN a ELSE Eval(C, e[3], a.st)
+    [] k = "trb" -> LET a == Eval(C, e[3], st) IN IF Bad(a) THEN a ELSE IR(a.v, [a.st EXCEPT !.obs = Append(@, <<"b", e[2], a.v>>)])
+    [] k = "bvar" -> IR(st.mem[st.env[e[2]]], st)
+    \* ---- composite values
+    [] k = "idx" ->
+         (LET r == EvalList(C, <<e[3], e[4]>>, 1, <<>>, st) IN IF Bad(r) THEN r ELSE
+          CASE e[2] = "sl" -> Load(<<"sl", r.v[1], r.v[2]>>, r.st)
+            [] e[2] = "map" -> Load(<<"map", r.v[1], r.v[2]>>, r.st)
+            [] e[2] = "pa" -> Load(<<"el", r.v[1], r.v[2] + 1>>, r.st)
+            [] e[2] \in {"arr", "str"} ->
+                 IF r.v[2] < 0 \/ r.v[2] >= Len(r.v[1]) THEN PanicIR(r.st, <<"index">>) ELSE IR(r.v[1][r.v[2] + 1], r.st))
+    [] k = "len" ->
+         LET a == Eval(C, e[3], st) IN IF Bad(a) THEN a ELSE
+         IR(CASE e[2] = "sl" -> a.v.n
+              [] e[2] = "map" -> IF a.v = 0 THEN 0 ELSE Cardinality(DOMAIN a.st.mem[a.v])
+              [] e[2] = "pa" -> 3
+              [] OTHER -> Len(a.v), a.st)
+    [] k = "cap" -> LET a == Eval(C, e[3], st) IN IF Bad(a) THEN a ELSE IR(IF e[2] = "sl" THEN a.v.c ELSE 3, a.st)
+    [] k = "fld" -> LET a == Eval(C, e[2], st) IN IF Bad(a) THEN a ELSE IR(a.v[e[3]], a.st)
+    [] k = "pfld" -> LET p == Eval(C, e[2], st) IN IF Bad(p) THEN p ELSE Load(<<"el", p.v, e[3]>>, p.st)
+    [] k = "deref" -> LET p == Eval(C, e[2], st) IN IF Bad(p) THEN p ELSE Load(<<"loc", p.v, 0>>, p.st)
+    [] k = "addr" -> IR(st.env[e[2][2]], st)
+    [] k \in {"nil", "nilmap"} -> IR(0, st)
+    [] k = "nilsl" -> IR(NilSlice, st)
+    [] k = "newT" ->
+         LET r == EvalList(C, <<e[2], e[3]>>, 1, <<>>, st) IN IF Bad(r) THEN r ELSE
+         IR(Len(r.st.mem) + 1, [r.st EXCEPT !.mem = Append(@, r.v)])
+    [] k \in {"arrlit", "tlit"} -> EvalList(C, e[2], 1, <<>>, st)
+    [] k = "strlit" -> IR(e[2], st)
+    [] k = "concat" -> LET r == EvalList(C, <<e[2], e[3]>>, 1, <<>>, st) IN IF Bad(r) THEN r ELSE IR(r.v[1] \o r.v[2], r.st)
+    [] k = "mk" ->
+         LET n == Eval(C, e[2], st) IN IF Bad(n) THEN n ELSE
+         LET c == Opt(C, e[3], n.v, n.st) IN IF Bad(c) THEN c ELSE
+         IF n.v < 0 \/ c.v < n.v THEN PanicIR(c.st, <<"makeslice">>) ELSE
+         LET st1 == [c.st EXCEPT !.mem = Append(@, [i \in 1..c.v |-> 0])]
+         IN MkSlice([a |-> Len(st1.mem), o |-> 0, n |-> n.v, c |-> c.v], st1)
+    [] k = "sllit" ->
+         LET r == EvalList(C, e[2], 1, <<>>, st) IN IF Bad(r) THEN r ELSE
+         LET st1 == [r.st EXCEPT !.mem = Append(@, r.v)]
+         IN MkSlice([a |-> Len(st1.mem), o |-> 0, n |-> Len(r.v), c |-> Len(r.v)], st1)
+    [] k = "slice" ->
+         (IF e[2] = "arrv"
+         THEN \* slicing an array variable: the variable's cell becomes the backing store
+              LET b == EvalLV(C, e[3], st) IN IF Bad(b) THEN b ELSE
+              LET lo == Opt(C, e[4], 0, b.st) IN IF Bad(lo) THEN lo ELSE
+              LET hi == Opt(C, e[5], 3, lo.st) IN IF Bad(hi) THEN hi ELSE
+              LET mx == Opt(C, e[6], 3, hi.st) IN IF Bad(mx) THEN mx ELSE
+              IF b.v[2] = 0 THEN PanicIR(mx.st, <<"nilptr">>)
+              ELSE SliceOf([a |-> b.v[2], o |-> 0, n |-> 3, c |-> 3], lo.v, hi.v, mx.v, mx.st)
+         ELSE
+         LET b == Eval(C, e[3], st) IN IF Bad(b) THEN b ELSE
+         LET lo == Opt(C, e[4], 0, b.st) IN IF Bad(lo) THEN lo ELSE
+         LET hi == Opt(C, e[5], CASE e[2] = "sl" -> b.v.n [] e[2] = "pa" -> 3 [] OTHER -> Len(b.v), lo.st) IN IF Bad(hi) THEN hi ELSE
+         LET mx == Opt(C, e[6], CASE e[2] = "sl" -> b.v.c [] e[2] = "pa" -> 3 [] OTHER -> Len(b.v), hi.st) IN IF Bad(mx) THEN mx ELSE
+         CASE e[2] = "sl" -> SliceOf(b.v, lo.v, hi.v, mx.v, mx.st)
+           [] e[2] = "pa" -> IF b.v = 0 THEN PanicIR(mx.st, <<"nilptr">>)
+                             ELSE SliceOf([a |-> b.v, o |-> 0, n |-> 3, c |-> 3], lo.v, hi.v, mx.v, mx.st)
+           [] e[2] = "str" -> IF lo.v < 0 \/ lo.v > hi.v \/ hi.v > Len(b.v) THEN PanicIR(mx.st, <<"bounds">>)
+                              ELSE IR(SubSeq(b.v, lo.v + 1, hi.v), mx.st))
+    [] k = "append" ->
+         LET s == Eval(C, e[2], st) IN IF Bad(s) THEN s ELSE
+         LET r == EvalList(C, e[3], 1, <<>>, s.st) IN IF Bad(r) THEN r ELSE AppendVals(C, s.v, r.v, r.st)
+    [] k = "appendsl" ->
+         LET r == EvalList(C, <<e[2], e[3]>>, 1, <<>>, st) IN IF Bad(r) THEN r ELSE
+         AppendVals(C, r.v[1], SliceElems(r.v[2], r.st), r.st)
+    [] k = "copy" ->
+         LET r == EvalList(C, <<e[2], e[3]>>, 1, <<>>, st) IN IF Bad(r) THEN r ELSE
+         LET n == Min2(r.v[1].n, r.v[2].n)
+         IN IF n = 0 THEN IR(0, r.st)
+            ELSE IR(n, SliceWrite(r.v[1], 0, SubSeq(SliceElems(r.v[2], r.st), 1, n), r.st))
+    [] k = "mkmap" -> IR(Len(st.mem) + 1, [st EXCEPT !.mem = Append(@, <<>>)])
+    [] k = "maplit" ->
+         LET r == EvalList(C, e[2], 1, <<>>, st) IN IF Bad(r) THEN r ELSE
+         LET n == Len(r.v) \div 2
+             ks == {r.v[2 * i - 1] : i \in 1..n}
+             f == TLCEval([x \in ks |-> r.v[2 * (CHOOSE i \in 1..n : r.v[2 * i - 1] = x)]])
+         IN IR(Len(r.st.mem) + 1, [r.st EXCEPT !.mem = Append(@, f)])
+    [] k = "funclit" -> IR([f |-> C.fi[e[2]], env |-> st.env, b |-> <<>>, body |-> <<>>], st)
+    [] k = "fnref" -> IR(FnVal(C, e[2]), st)
+    [] k = "mval" ->
+         \* the receiver is evaluated (a struct: copied) when the method value is
+         LET r == Eval(C, e[2], st) IN IF Bad(r) THEN r ELSE
+         IR([f |-> C.fi[e[3]], env |-> C.genv, b |-> <<r.v>>, body |-> <<>>], r.st)
+
+\* call a function value
+CallVal(C, fv, args, st) ==
+  IF fv.f = 0 THEN PanicIR(st, <<"nilptr">>)
+  ELSE IF fv.f = -2 THEN IR(0, [st EXCEPT !.obs = Append(@, <<"e", fv.body, args[1]>>)])     \* deferred println
+  ELSE IF fv.f = -1
+  THEN \* closure statement of version 1: the body runs in the creating activation's environment
+       IF st.depth >= MaxDepth THEN PanicIR(OutOfFuel(st), <<"fuel">>) ELSE
+       LET r == ExecList(C, fv.body, 1, [st EXCEPT !.env = fv.env, !.dfr = <<>>, !.depth = @ + 1])
+           s1 == RunDefers(C, r.st.dfr, r.st)
+       IN IR(IF r.sig = "return" THEN r.rv ELSE 0, [s1 EXCEPT !.env = st.env, !.dfr = st.dfr, !.depth = st.depth])
+  ELSE CallFn(C, fv.f, fv.b \o args, fv.env, st)
+
+\* run the deferred calls ds (last first); a panic raised by one replaces the current one
+RunDefers(C, ds, st) ==
+  IF ds = <<>> THEN st
+  ELSE LET d == ds[Len(ds)]
+           r == CallVal(C, d[1], d[2], [st EXCEPT !.pan = <<>>])
+           pan1 == IF r.st.pan # <<>> THEN r.st.pan ELSE st.pan
+       IN RunDefers(C, SubSeq(ds, 1, Len(ds) - 1), [r.st EXCEPT !.pan = pan1])
+
+\* call function number f with argument values (receiver first); cenv = environment the
+\* function was created in (package level variables, plus the captured variables of a literal)
+CallFn(C, f, argv, cenv, st) ==
+  IF st.depth >= MaxDepth THEN PanicIR(OutOfFuel(st), <<"fuel">>) ELSE
+  LET fn == C.fs[f]
+      names == fn.params \o fn.locals
+      nameset == {names[i] : i \in DOMAIN names}
+      base == Len(st.mem)
+      vals == argv \o [i \in 1..Len(fn.locals) |-> Zero(fn.lt[i])]
+      env0 == TLCEval([x \in (DOMAIN cenv) \cup nameset |->
+                 IF x \in nameset THEN base + (CHOOSE i \in DOMAIN names : names[i] = x) ELSE cenv[x]])
+      r == ExecList(C, fn.body, 1, [st EXCEPT !.env = env0, !.mem = @ \o vals, !.dfr = <<>>, !.depth = @ + 1])
+      nres == Len(fn.rt)
+      named == fn.named # <<>>
+      \* an explicit return first assigns the result variables
+      s1 == IF r.sig = "return" /\ named
+            THEN [r.st EXCEPT !.mem = [j \in DOMAIN @ |->
+                    IF \E i \in 1..nres : env0[fn.named[i]] = j
+                    THEN (IF nres = 1 THEN r.rv ELSE r.rv[CHOOSE i \in 1..nres : env0[fn.named[i]] = j])
+                    ELSE @[j]]]
+            ELSE r.st
+      s2 == RunDefers(C, s1.dfr, s1)
+      res == IF named THEN (IF nres = 1 THEN s2.mem[env0[fn.named[1]]] ELSE [i \in 1..nres |-> s2.mem[env0[fn.named[i]]]])
+             ELSE IF r.sig = "return" THEN r.rv
+             ELSE IF nres = 1 THEN Zero(fn.rt[1]) ELSE [i \in 1..nres |-> Zero(fn.rt[i])]
+  IN IR(IF s2.pan # <<>> THEN 0 ELSE res, [s2 EXCEPT !.env = st.env, !.dfr = st.dfr, !.depth = st.depth])
+
+LabelPos(ss, l) == IF \E j \in DOMAIN ss : ss[j][1] = "label" /\ ss[j][2] = l
+                   THEN CHOOSE j \in DOMAIN ss : ss[j][1] = "label" /\ ss[j][2] = l ELSE 0
+
+ExecList(C, ss, i, st) ==
   IF i > Len(ss) THEN SR(st, "norm", "", 0)
-  ELSE LET r == Exec(P, I, ss[i], st)
-       IN IF r.sig = "norm" THEN ExecList(P, I, ss, i + 1, r.st) ELSE r
+  ELSE LET r == Exec(C, ss[i], st)
+       IN IF r.sig = "norm" THEN ExecList(C, ss, i + 1, r.st)
+          ELSE IF r.sig = "goto" /\ LabelPos(ss, r.lbl) > 0
+          THEN (IF r.st.fuel <= 0 THEN PanicSR(OutOfFuel(r.st))
+                ELSE ExecList(C, ss, LabelPos(ss, r.lbl) + 1, [r.st EXCEPT !.fuel = @ - 1]))
+          ELSE r
 
 \* for loop: s = <<"for", label, init, cond, post, body>>; init already executed
-Loop(P, I, s, st) ==
-  IF st.fuel <= 0 THEN SR([st EXCEPT !.fuel = -1], "return", "", 0)        \* out of fuel: scenario discarded
+Loop(C, s, st) ==
+  IF st.fuel <= 0 THEN PanicSR(OutOfFuel(st))        \* out of fuel: scenario discarded
   ELSE
-  LET c == IF s[4] = <<>> THEN IR(1, st) ELSE EvalB(P, I, s[4], st) IN
-  IF c.v = 0 THEN SR(c.st, "norm", "", 0)
+  LET c == IF s[4] = <<>> THEN IR(1, st) ELSE Eval(C, s[4], st) IN
+  IF Bad(c) THEN PanicSR(c.st)
+  ELSE IF c.v = 0 THEN SR(c.st, "norm", "", 0)
   ELSE
-    LET b == ExecList(P, I, s[6], 1, [c.st EXCEPT !.fuel = @ - 1])
+    LET b == ExecList(C, s[6], 1, [c.st EXCEPT !.fuel = @ - 1])
         mine(r) == r.lbl = "" \/ r.lbl = s[2]
     IN
     IF b.sig = "break" /\ mine(b) THEN SR(b.st, "norm", "", 0)
     ELSE IF b.sig = "norm" \/ (b.sig = "continue" /\ mine(b))
-    THEN LET p == ExecList(P, I, s[5], 1, b.st) IN Loop(P, I, s, p.st)
-    ELSE b                                         \* return, or break/continue of an outer loop
+    THEN LET p == ExecList(C, s[5], 1, b.st) IN IF p.sig = "panic" THEN p ELSE Loop(C, s, p.st)
+    ELSE b                                         \* return, panic, goto, or break/continue of an outer loop
+
+\* range loop: s = <<"range", label, kind, key, val, define, x, body>>; x0 = value of x (evaluated
+\* once; an array is a copy, a slice keeps its length), keys = key order of a map, i = next position
+RangeIter(C, s, x0, keys, n, i, st) ==
+  IF i > n THEN SR(st, "norm", "", 0)
+  ELSE IF s[3] = "map" /\ keys[i] \notin DOMAIN st.mem[x0] THEN RangeIter(C, s, x0, keys, n, i + 1, st)   \* deleted before reached
+  ELSE IF st.fuel <= 0 THEN PanicSR(OutOfFuel(st))
+  ELSE IF s[3] = "pa" /\ s[5] # "" /\ x0 = 0 THEN PanicSR(Panic(st, <<"nilptr">>))
+  ELSE
+    LET kval == IF s[3] = "map" THEN keys[i] ELSE i - 1
+        vval == IF s[5] = "" THEN 0
+                ELSE CASE s[3] = "sl" -> st.mem[x0.a][x0.o + i]
+                       [] s[3] = "pa" -> st.mem[x0][i]
+                       [] s[3] = "map" -> st.mem[x0][keys[i]]
+                       [] OTHER -> x0[i]
+        s1 == IF s[4] = "" THEN st ELSE [st EXCEPT !.mem[st.env[s[4]]] = kval]
+        s2 == IF s[5] = "" THEN s1 ELSE [s1 EXCEPT !.mem[st.env[s[5]]] = vval]
+        b == ExecList(C, s[8], 1, [s2 EXCEPT !.fuel = @ - 1])
+        mine(r) == r.lbl = "" \/ r.lbl = s[2]
+    IN
+    IF b.sig = "break" /\ mine(b) THEN SR(b.st, "norm", "", 0)
+    ELSE IF b.sig = "norm" \/ (b.sig = "continue" /\ mine(b)) THEN RangeIter(C, s, x0, keys, n, i + 1, b.st)
+    ELSE b
 
 \* does any expression of clause list es match (tag v / tagless: is any true)? evaluated left to right
-MatchAny(P, I, hasTag, v, es, i, st) ==
+MatchAny(C, hasTag, v, es, i, st) ==
   IF i > Len(es) THEN IR(0, st)
-  ELSE LET a == IF hasTag THEN EvalI(P, I, es[i], st) ELSE EvalB(P, I, es[i], st)
+  ELSE LET a == Eval(C, es[i], st)
            hit == IF hasTag THEN a.v = v ELSE a.v = 1
-       IN IF hit THEN IR(1, a.st) ELSE MatchAny(P, I, hasTag, v, es, i + 1, a.st)
+       IN IF Bad(a) THEN a ELSE IF hit THEN IR(1, a.st) ELSE MatchAny(C, hasTag, v, es, i + 1, a.st)
 
 \* find the clause to run: first matching non-default clause in source order, else default
 \* returns [v |-> clause index or 0, st]
-Clauses(P, I, hasTag, v, cls, i, st) ==
+Clauses(C, hasTag, v, cls, i, st) ==
   IF i > Len(cls)
   THEN IR(IF \E j \in DOMAIN cls : cls[j][1] THEN CHOOSE j \in DOMAIN cls : cls[j][1] ELSE 0, st)
-  ELSE IF cls[i][1] THEN Clauses(P, I, hasTag, v, cls, i + 1, st)
-  ELSE LET m == MatchAny(P, I, hasTag, v, cls[i][2], 1, st)
-       IN IF m.v = 1 THEN IR(i, m.st) ELSE Clauses(P, I, hasTag, v, cls, i + 1, m.st)
+  ELSE IF cls[i][1] THEN Clauses(C, hasTag, v, cls, i + 1, st)
+  ELSE LET m == MatchAny(C, hasTag, v, cls[i][2], 1, st)
+       IN IF Bad(m) THEN m ELSE IF m.v = 1 THEN IR(i, m.st) ELSE Clauses(C, hasTag, v, cls, i + 1, m.st)
 
-RECURSIVE RunClauses(_, _, _, _, _)
-RunClauses(P, I, cls, i, st) ==
-  LET r == ExecList(P, I, cls[i][3], 1, st) IN
-  IF r.sig = "norm" /\ cls[i][4] /\ i < Len(cls) THEN RunClauses(P, I, cls, i + 1, r.st)   \* fallthrough
+RunClauses(C, cls, i, st) ==
+  LET r == ExecList(C, cls[i][3], 1, st) IN
+  IF r.sig = "norm" /\ cls[i][4] /\ i < Len(cls) THEN RunClauses(C, cls, i + 1, r.st)   \* fallthrough
   ELSE r
 
-Exec(P, I, s, st) ==
-  CASE s[1] = "emit" -> LET a == EvalI(P, I, s[3], st) IN SR([a.st EXCEPT !.obs = Append(@, <<"e", s[2], a.v>>)], "norm", "", 0)
-    [] s[1] = "assign" -> LET a == EvalI(P, I, s[3], st) IN SR([a.st EXCEPT !.env[s[2]] = a.v], "norm", "", 0)
-    [] s[1] = "addto" -> LET a == EvalI(P, I, s[3], st)
-                             b == Chk(a.st.env[s[2]] + a.v, a.st)
-                         IN SR([b.st EXCEPT !.env[s[2]] = b.v], "norm", "", 0)
-    [] s[1] = "inc" -> SR([st EXCEPT !.env[s[2]] = @ + 1], "norm", "", 0)
-    [] s[1] = "swap" -> SR([st EXCEPT !.env[s[2]] = st.env[s[3]], !.env[s[3]] = st.env[s[2]]], "norm", "", 0)
-    [] s[1] = "expr" -> LET a == EvalI(P, I, s[2], st) IN SR(a.st, "norm", "", 0)
-    [] s[1] = "return" -> LET a == EvalI(P, I, s[2], st) IN SR(a.st, "return", "", a.v)
-    [] s[1] = "break" -> SR(st, "break", s[2], 0)
-    [] s[1] = "continue" -> SR(st, "continue", s[2], 0)
-    [] s[1] = "closure" -> SR([st EXCEPT !.clo = [x \in DOMAIN st.clo \cup {s[2]} |-> IF x = s[2] THEN s[3] ELSE st.clo[x]]], "norm", "", 0)
-    [] s[1] = "if" -> LET c == EvalB(P, I, s[2], st) IN ExecList(P, I, IF c.v = 1 THEN s[3] ELSE s[4], 1, c.st)
-    [] s[1] = "for" -> LET i0 == ExecList(P, I, s[3], 1, st) IN Loop(P, I, s, i0.st)
-    [] s[1] = "switch" ->
-         LET t == IF s[2] THEN EvalI(P, I, s[3], st) ELSE IR(0, st)
-             k == Clauses(P, I, s[2], t.v, s[4], 1, t.st)
-         IN IF k.v = 0 THEN SR(k.st, "norm", "", 0)
-            ELSE LET r == RunClauses(P, I, s[4], k.v, k.st)
-                 IN IF r.sig = "break" /\ (r.lbl = "" \/ r.lbl = s[5]) THEN SR(r.st, "norm", "", 0) ELSE r
+Norm(st) == SR(st, "norm", "", 0)
+\* outcome of a statement that ends after evaluating into state st
+After(st) == IF st.pan # <<>> THEN PanicSR(st) ELSE Norm(st)
+
+DumpLines(k, kind, v, st) ==
+  CASE kind = "sl" -> <<<<"d", k, v.n>>>> \o [i \in 1..v.n |-> <<"d", k, i - 1, st.mem[v.a][v.o + i]>>]
+    [] kind = "map" -> IF v = 0 THEN <<<<"d", k, 0>>>>
+                       ELSE LET ks == SortKeys(DOMAIN st.mem[v], 1)
+                            IN <<<<"d", k, Len(ks)>>>> \o [i \in 1..Len(ks) |-> <<"d", k, ks[i], st.mem[v][ks[i]]>>]
+    [] OTHER -> <<<<"d", k, Len(v)>>>> \o [i \in 1..Len(v) |-> <<"d", k, i - 1, v[i]>>]      \* arr, T, str
+
+Exec(C, s, st) ==
+  LET k == s[1] IN
+  CASE k = "emit" -> LET a == Eval(C, s[3], st) IN IF Bad(a) THEN PanicSR(a.st) ELSE Norm([a.st EXCEPT !.obs = Append(@, <<"e", s[2], a.v>>)])
+    [] k = "assign" -> LET a == Eval(C, s[3], st) IN IF Bad(a) THEN PanicSR(a.st) ELSE Norm([a.st EXCEPT !.mem[st.env[s[2]]] = a.v])
+    [] k = "addto" -> LET a == Eval(C, s[3], st) IN IF Bad(a) THEN PanicSR(a.st) ELSE
+                      LET b == Chk(a.st.mem[st.env[s[2]]] + a.v, a.st)
+                      IN After([b.st EXCEPT !.mem[st.env[s[2]]] = b.v])
+    [] k = "inc" -> Norm([st EXCEPT !.mem[st.env[s[2]]] = @ + 1])
+    [] k = "swap" -> Norm([st EXCEPT !.mem[st.env[s[2]]] = st.mem[st.env[s[3]]], !.mem[st.env[s[3]]] = st.mem[st.env[s[2]]]])
+    [] k = "expr" -> LET a == Eval(C, s[2], st) IN After(a.st)
+    [] k = "return" -> LET a == Eval(C, s[2], st) IN IF Bad(a) THEN PanicSR(a.st) ELSE SR(a.st, "return", "", a.v)
+    [] k = "returnN" -> LET a == EvalList(C, s[2], 1, <<>>, st) IN IF Bad(a) THEN PanicSR(a.st) ELSE SR(a.st, "return", "", a.v)
+    [] k = "ret0" -> SR(st, "return0", "", 0)
+    [] k = "break" -> SR(st, "break", s[2], 0)
+    [] k = "continue" -> SR(st, "continue", s[2], 0)
+    [] k = "goto" -> SR(st, "goto", s[2], 0)
+    [] k = "label" -> Norm(st)
+    [] k = "closure" ->
+         \* c := func() int { body }: a new variable holding a function value over the current environment
+         LET l == Len(st.mem) + 1
+             env1 == TLCEval([x \in (DOMAIN st.env) \cup {s[2]} |-> IF x = s[2] THEN l ELSE st.env[x]])
+         IN Norm([st EXCEPT !.env = env1, !.mem = Append(@, [f |-> -1, env |-> env1, b |-> <<>>, body |-> s[3]])])
+    [] k = "if" -> LET c == Eval(C, s[2], st) IN IF Bad(c) THEN PanicSR(c.st) ELSE ExecList(C, IF c.v = 1 THEN s[3] ELSE s[4], 1, c.st)
+    [] k = "for" -> LET i0 == ExecList(C, s[3], 1, st) IN IF i0.sig = "panic" THEN i0 ELSE Loop(C, s, i0.st)
+    [] k = "switch" ->
+         LET t == IF s[2] THEN Eval(C, s[3], st) ELSE IR(0, st) IN IF Bad(t) THEN PanicSR(t.st) ELSE
+         LET c == Clauses(C, s[2], t.v, s[4], 1, t.st)
+         IN IF Bad(c) THEN PanicSR(c.st)
+            ELSE IF c.v = 0 THEN Norm(c.st)
+            ELSE LET r == RunClauses(C, s[4], c.v, c.st)
+                 IN IF r.sig = "break" /\ (r.lbl = "" \/ r.lbl = s[5]) THEN Norm(r.st) ELSE r
+    \* ---- version 2
+    [] k = "set" ->
+         LET l == EvalLV(C, s[2], st) IN IF Bad(l) THEN PanicSR(l.st) ELSE
+         LET a == Eval(C, s[3], l.st) IN IF Bad(a) THEN PanicSR(a.st) ELSE After(Store(l.v, a.v, a.st))
+    [] k = "massign" ->
+         \* phase 1: operands of the left-hand sides, then the right-hand sides; phase 2: assign left to right
+         LET l == EvalLVs(C, s[2], 1, <<>>, st) IN IF Bad(l) THEN PanicSR(l.st) ELSE
+         LET a == EvalList(C, s[3], 1, <<>>, l.st) IN IF Bad(a) THEN PanicSR(a.st) ELSE After(StoreAll(l.v, a.v, 1, a.st))
+    [] k = "assignN" ->
+         LET l == EvalLVs(C, s[2], 1, <<>>, st) IN IF Bad(l) THEN PanicSR(l.st) ELSE
+         LET a == Eval(C, s[3], l.st) IN IF Bad(a) THEN PanicSR(a.st) ELSE After(StoreAll(l.v, a.v, 1, a.st))
+    [] k = "opset" ->
+         \* the operands of the left-hand side are evaluated once
+         LET l == EvalLV(C, s[3], st) IN IF Bad(l) THEN PanicSR(l.st) ELSE
+         LET a == Eval(C, s[4], l.st) IN IF Bad(a) THEN PanicSR(a.st) ELSE
+         LET o == Load(l.v, a.st) IN IF Bad(o) THEN PanicSR(o.st) ELSE
+         LET v == Chk(Arith(s[2], o.v, a.v), o.st) IN IF Bad(v) THEN PanicSR(v.st) ELSE After(Store(l.v, v.v, v.st))
+    [] k = "incdec" ->
+         LET l == EvalLV(C, s[2], st) IN IF Bad(l) THEN PanicSR(l.st) ELSE
+         LET o == Load(l.v, l.st) IN IF Bad(o) THEN PanicSR(o.st) ELSE After(Store(l.v, o.v + s[3], o.st))
+    [] k = "bassign" -> LET a == Eval(C, s[3], st) IN IF Bad(a) THEN PanicSR(a.st) ELSE Norm([a.st EXCEPT !.mem[st.env[s[2]]] = a.v])
+    [] k = "commaok" ->
+         LET l == EvalLV(C, s[2], st) IN IF Bad(l) THEN PanicSR(l.st) ELSE
+         LET r == EvalList(C, <<s[4], s[5]>>, 1, <<>>, l.st) IN IF Bad(r) THEN PanicSR(r.st) ELSE
+         LET has == r.v[1] # 0 /\ r.v[2] \in DOMAIN r.st.mem[r.v[1]]
+             s1 == Store(l.v, IF has THEN r.st.mem[r.v[1]][r.v[2]] ELSE 0, r.st)
+         IN IF s1.pan # <<>> THEN PanicSR(s1) ELSE Norm([s1 EXCEPT !.mem[st.env[s[3]]] = IF has THEN 1 ELSE 0])
+    [] k = "delete" ->
+         LET r == EvalList(C, <<s[2], s[3]>>, 1, <<>>, st) IN IF Bad(r) THEN PanicSR(r.st) ELSE
+         IF r.v[1] = 0 THEN Norm(r.st)
+         ELSE LET f == r.st.mem[r.v[1]]
+              IN Norm([r.st EXCEPT !.mem[r.v[1]] = TLCEval([x \in (DOMAIN f) \ {r.v[2]} |-> f[x]])])
+    [] k = "range" ->
+         LET x == Eval(C, s[7], st) IN IF Bad(x) THEN PanicSR(x.st) ELSE
+         LET \* := declares one fresh pair of variables for the whole loop
+             l == Len(x.st.mem)
+             env1 == IF s[6] THEN TLCEval([y \in (DOMAIN x.st.env) \cup ({s[4], s[5]} \ {""}) |->
+                                     IF y = s[4] THEN l + 1 ELSE IF y = s[5] THEN l + 2 ELSE x.st.env[y]])
+                     ELSE x.st.env
+             st1 == IF s[6] THEN [x.st EXCEPT !.env = env1, !.mem = @ \o <<0, 0>>] ELSE x.st
+             ismap == s[3] = "map"
+             keys == IF ismap /\ x.v # 0 THEN SortKeys(DOMAIN st1.mem[x.v], C.ord) ELSE <<>>
+             n == CASE s[3] = "sl" -> x.v.n [] s[3] = "pa" -> 3 [] ismap -> Len(keys) [] OTHER -> Len(x.v)
+             st2 == IF ismap /\ x.v # 0 THEN [st1 EXCEPT !.rng = @ \cup {x.v}, !.mapr = @ \/ n > 1] ELSE st1
+             r == RangeIter(C, s, x.v, keys, n, 1, st2)
+         IN [r EXCEPT !.st.rng = st.rng]
+    [] k = "defer" ->
+         (LET ce == s[2] IN
+          CASE ce[1] \in {"call", "callsp"} ->
+                LET as == EvalList(C, ce[3], 1, <<>>, st) IN IF Bad(as) THEN PanicSR(as.st) ELSE
+                LET pk == PackArgs(C, C.fi[ce[2]], as.v, ce[1] = "callsp", as.st)
+                IN Norm([pk.st EXCEPT !.dfr = Append(@, <<FnVal(C, ce[2]), pk.v>>)])
+           [] ce[1] = "callv" -> Norm([st EXCEPT !.dfr = Append(@, <<st.mem[st.env[ce[2]]], <<>> >>)])
+           [] ce[1] = "callf" ->
+                LET f == Eval(C, ce[2], st) IN IF Bad(f) THEN PanicSR(f.st) ELSE
+                LET as == EvalList(C, ce[3], 1, <<>>, f.st) IN IF Bad(as) THEN PanicSR(as.st) ELSE
+                Norm([as.st EXCEPT !.dfr = Append(@, <<f.v, as.v>>)])
+           [] ce[1] = "mcall" ->
+                LET r == Eval(C, ce[2], st) IN IF Bad(r) THEN PanicSR(r.st) ELSE
+                LET as == EvalList(C, ce[4], 1, <<>>, r.st) IN IF Bad(as) THEN PanicSR(as.st) ELSE
+                Norm([as.st EXCEPT !.dfr = Append(@, <<[f |-> C.fi[ce[3]], env |-> C.genv, b |-> <<r.v>>, body |-> <<>>], as.v>>)]))
+    [] k = "deferemit" ->
+         LET a == Eval(C, s[3], st) IN IF Bad(a) THEN PanicSR(a.st) ELSE
+         Norm([a.st EXCEPT !.dfr = Append(@, <<[f |-> -2, env |-> <<>>, b |-> <<>>, body |-> s[2]], <<a.v>> >>)])
+    [] k = "panic" -> LET a == Eval(C, s[2], st) IN IF Bad(a) THEN PanicSR(a.st) ELSE PanicSR(Panic(a.st, <<"v", a.v>>))
+    [] k = "dump" -> LET a == Eval(C, s[4], st) IN IF Bad(a) THEN PanicSR(a.st) ELSE
+                     Norm([a.st EXCEPT !.obs = @ \o DumpLines(s[2], s[3], a.v, a.st)])
+
+\* one run under one policy (growth policy of append, iteration order of maps)
+RunOnce(P, I, fuel, grow, ord) ==
+  LET fs == P.funcs
+      ng == Len(P.globals)
+      genv == TLCEval([x \in {P.globals[i][1] : i \in 1..ng} |-> CHOOSE i \in 1..ng : P.globals[i][1] = x])
+      C == [fs |-> fs, inp |-> I, grow |-> grow, ord |-> ord, genv |-> genv,
+            fi |-> TLCEval([x \in {fs[i].name : i \in DOMAIN fs} |-> CHOOSE i \in DOMAIN fs : fs[i].name = x])]
+      st0 == [env |-> genv, mem |-> [i \in 1..ng |-> Zero(P.globals[i][2])], obs |-> <<>>, ip |-> 1, fuel |-> fuel,
+              dfr |-> <<>>, pan |-> <<>>, depth |-> 0, grew |-> FALSE, mapr |-> FALSE, nd |-> FALSE, rng |-> {}, wf |-> TRUE]
+      r == CallFn(C, 1, <<>>, genv, st0)
+      last == IF r.st.pan = <<>> THEN <<"ret", r.v>> ELSE <<"panic">> \o r.st.pan
+  IN [obs |-> Append(r.st.obs, last), used |-> r.st.ip - 1, ok |-> r.st.fuel >= 0 /\ ~r.st.nd,
+      dep |-> r.st.grew \/ r.st.mapr, wf |-> r.st.wf, depth |-> r.st.depth, dfr |-> r.st.dfr]
 
 \* the whole program on input vector I (sequence of 0/1); entry function has no parameters
 RunProgram(P, I, fuel) ==
-  LET r == CallFn(P, I, 1, <<>>, [env |-> <<>>, clo |-> <<>>, obs |-> <<>>, ip |-> 1, fuel |-> fuel])
-  IN [obs |-> Append(r.st.obs, <<"ret", r.v>>), used |-> r.st.ip - 1, ok |-> r.st.fuel >= 0]
+  LET r1 == RunOnce(P, I, fuel, 1, 1)
+      r2 == RunOnce(P, I, fuel, 2, -1)
+      r3 == RunOnce(P, I, fuel, 3, -1)
+      indep == ~r1.dep \/ (r2.obs = r1.obs /\ r3.obs = r1.obs /\ r2.ok /\ r3.ok)
+  IN [obs |-> r1.obs, used |-> r1.used, ok |-> r1.ok /\ indep, indep |-> indep,
+      wf |-> r1.wf /\ r1.depth = 0 /\ r1.dfr = <<>>]
+
+\* ---- laws of the store the semantics must satisfy (checked once by TLC, see MiniGoScen)
+\* two windows [o1, o1+n1) and [o2, o2+n2) into one backing cell of 4 elements: a write through
+\* the first at index i is seen through the second at index j iff they name the same element
+AliasLaw ==
+  LET st0 == [mem |-> << <<10, 20, 30, 40>> >>, pan |-> <<>>, nd |-> FALSE, rng |-> {}, wf |-> TRUE]
+      W == {w \in [o : 0..4, n : 0..4] : w.o + w.n <= 4}
+      sl(w) == [a |-> 1, o |-> w.o, n |-> w.n, c |-> 4 - w.o]
+  IN \A w1, w2 \in W : \A i \in 0..(w1.n - 1) : \A j \in 0..(w2.n - 1) :
+       LET st1 == Store(<<"sl", sl(w1), i>>, 99, st0)
+           seen == Load(<<"sl", sl(w2), j>>, st1).v = 99
+       IN /\ st1.pan = <<>>
+          /\ seen <=> (w1.o + i = w2.o + j)
+          /\ Load(<<"sl", sl(w1), w1.n>>, st0).st.pan = <<"index">>          \* one past the length panics
+\* append within the capacity writes into the shared cell (visible through a longer alias),
+\* append beyond it leaves the old cell untouched
+AppendLaw ==
+  LET st0 == [mem |-> << <<10, 20, 30, 40>> >>, pan |-> <<>>, nd |-> FALSE, rng |-> {}, wf |-> TRUE, grew |-> FALSE]
+      whole == [a |-> 1, o |-> 0, n |-> 4, c |-> 4]
+  IN \A pol \in 1..3 : \A o \in 0..3 : \A n \in 0..(4 - o) : \A c \in n..(4 - o) :
+       LET s == [a |-> 1, o |-> o, n |-> n, c |-> c]
+           r == AppendVals([grow |-> pol], s, <<77>>, st0)
+       IN /\ r.st.wf
+          /\ r.v.n = n + 1
+          /\ Load(<<"sl", r.v, n>>, r.st).v = 77
+          /\ IF n < c THEN /\ r.v.a = 1 /\ r.v.c = c /\ ~r.st.grew
+                           /\ Load(<<"sl", whole, o + n>>, r.st).v = 77
+                      ELSE /\ r.v.a = 2 /\ r.st.grew /\ r.v.c >= n + 1
+                           /\ r.st.mem[1] = st0.mem[1]
+                           /\ \A i \in 0..(n - 1) : Load(<<"sl", r.v, i>>, r.st).v = Load(<<"sl", s, i>>, st0).v
 =============================================================================
